@@ -1,6 +1,6 @@
 CONSTANTS MaxAtoms = 4
 MaxOps = 0
-AtomSet = {1, 2, 3, 4, 5, 9, 12, 17, 19, 22, 26, 27}
+AtomSet = {1, 2, 3, 4, 5, 9, 12, 17, 19, 22, 26, 27, 38}
 WithMgr = FALSE
 SPECIFICATION Spec
 CONSTRAINT Emit
